@@ -174,6 +174,17 @@ def cmp_matches(fact, op, a_pred, b_pred):
     return False
 
 
+def cmp_implies(fact, op, a_pred, b_pred):
+    """does the comparison fact imply (a op b)?  (a < b implies a <= b)"""
+    if cmp_matches(fact, op, a_pred, b_pred):
+        return True
+    if op == "Le":
+        return cmp_matches(fact, "Lt", a_pred, b_pred) or cmp_matches(fact, "Eq", a_pred, b_pred) or cmp_matches(fact, "Eq", b_pred, a_pred)
+    if op == "Ge":
+        return cmp_matches(fact, "Gt", a_pred, b_pred) or cmp_matches(fact, "Eq", a_pred, b_pred) or cmp_matches(fact, "Eq", b_pred, a_pred)
+    return False
+
+
 def show_fact(fn, fact):
     sy = sym(fn)
     if fact[0] == "cmp":
